@@ -310,6 +310,8 @@ impl VerifProto {
         let mut inner = self.inner.lock().unwrap();
         inner.waiting[which] = 0;
         inner.generation[which] += 1;
+        let name = if which == VERIF_STALL { "stall" } else { "compact" };
+        Self::log(&mut inner, format!("notify {} {}", verif_tid(), name));
     }
 
     pub(super) fn selected(&self, compaction: Option<&super::Compaction>) {
